@@ -61,6 +61,7 @@ struct IBank
    virtual uint32 count(int r) const = 0;
    virtual uint32 cap(int r) const = 0;
    virtual bool isSmall(int r) const = 0;
+   virtual uint32 headOff(int r) const = 0;   // physical slot of item 0 (generator only: boundary-directed cases)
    virtual const Ref & ref(int r) const = 0;
 };
 
@@ -84,6 +85,7 @@ template<class T> struct Bank : public IBank
    virtual uint32 count(int r) const {return q[r]->GetNumItems();}
    virtual uint32 cap(int r) const {return q[r]->GetNumAllocatedItemSlots();}
    virtual bool isSmall(int r) const {const char * p = (const char *) q[r]->GetRawArrayPointer(); return ((p >= (const char *)q[r])&&(p < (const char *)(q[r]+1)));}
+   virtual uint32 headOff(int r) const {return q[r]->HasItems() ? (uint32)(&(*q[r])[0] - q[r]->GetRawArrayPointer()) : 0;}
    virtual const Ref & ref(int r) const {return refs[r];}
 
    static bool parseVals(const std::string & s, std::vector<int64_t> & out)
@@ -338,12 +340,71 @@ template<class T> struct Bank : public IBank
          if ((!Q.IsNormalized())||(p1 != NULL)||(l0 != Q.GetNumItems())||((Q.HasItems())&&(p0 == NULL))) oracleFail("not contiguous after Normalize()");
          return fin(Q.IsNormalized() ? "ok" : "not-normalized", "ok");
       }
+      if (((op == "insap")&&(n == 5)&&(NUM(2, b, U32LIM))&&(NUM(3, c, U32LIM))&&(NUM(4, e, U32LIM)))||
+          (((op == "addtailap")||(op == "addheadap"))&&(n == 4)&&(NUM(2, c, U32LIM))&&(NUM(3, e, U32LIM))))
+      {
+         // the array argument points INTO this Queue: &Q[c], (e) items clipped to the contiguous run that holds item (c)
+         if ((c >= Q.GetNumItems())||(e == 0)) return "bad-op";
+         uint32 l0 = 0; (void) Q.GetArrayPointer(0, l0);
+         const uint64_t maxn = (c < l0) ? (l0-c) : (Q.GetNumItems()-c);
+         const uint64_t k = std::min<uint64_t>(e, maxn);
+         const Deq xs = slice(d, c, k);
+         const T * p = &Q[(uint32)c];
+         bool ok;
+         if (op == "insap") ok = Q.InsertItemsAt((uint32)b, p, (uint32)k).IsOK();
+         else if (op == "addtailap") ok = Q.AddTailMulti(p, (uint32)k).IsOK();
+         else ok = Q.AddHeadMulti(p, (uint32)k).IsOK();
+         const size_t at = (op == "insap") ? std::min<size_t>((size_t)b, d.size()) : ((op == "addtailap") ? d.size() : 0);
+         d.insert(d.begin()+at, xs.begin(), xs.end());
+         return fin(ok?"ok":"err", "ok");
+      }
+      if ((op == "setat")&&(n == 4)&&(NUM(2, b, U32LIM))&&(NUM(3, c, U32LIM)))
+      {
+         if (c >= Q.GetNumItems()) return "bad-op";
+         const bool ok = Q.ReplaceItemAt((uint32)b, Q[(uint32)c]).IsOK();
+         std::string want = "err";
+         if (b < d.size()) {if ((!R.unknown)&&(c < d.size())) d[b] = d[c]; want = "ok";}
+         return fin(ok?"ok":"err", R.unknown ? "?" : want);
+      }
+      if (((op == "remfirstat")||(op == "remlastat"))&&(n == 3)&&(NUM(2, b, U32LIM)))
+      {
+         if (b >= Q.GetNumItems()) return "bad-op";
+         const int64_t v = ((R.unknown)||(b >= d.size())) ? 0 : d[b];
+         const bool ok = (op == "remfirstat") ? Q.RemoveFirstInstanceOf(Q[(uint32)b]).IsOK() : Q.RemoveLastInstanceOf(Q[(uint32)b]).IsOK();
+         depMut(R);
+         std::string want = "err";
+         if (op == "remfirstat") {for (size_t i=0; i<d.size(); i++) if (d[i] == v) {d.erase(d.begin()+i); want = "ok"; break;}}
+         else for (int64_t i=(int64_t)d.size()-1; i>=0; i--) if (d[i] == v) {d.erase(d.begin()+i); want = "ok"; break;}
+         return fin(ok?"ok":"err", R.unknown ? "?" : want);
+      }
+      if ((op == "inssortedat")&&(n == 3)&&(NUM(2, b, U32LIM)))
+      {
+         if (b >= Q.GetNumItems()) return "bad-op";
+         const int64_t v = ((R.unknown)||(b >= d.size())) ? 0 : d[b];
+         const int32 got = Q.InsertItemAtSortedPosition(Q[(uint32)b]);
+         depMut(R);
+         size_t at = 0;
+         if ((!d.empty())&&(!(v < d[0]))) for (int64_t k=(int64_t)d.size()-1; k>=0; k--) if (!(v < d[k])) {at = (size_t)k+1; break;}
+         d.insert(d.begin()+at, v);
+         char buf[32]; snprintf(buf, sizeof(buf), "%d", (int)got);
+         return fin(buf, R.unknown ? "?" : u64s(at));
+      }
+      if (((op == "movector")||(op == "copyctor"))&&(n == 3)&&(NUM(2, c, (uint64_t)NREGS)))
+      {
+         // register (r) is replaced by a Queue move- resp. copy-constructed from register (c)
+         if (r == (int)c) return "bad-op";
+         Queue<T> * nq = (op == "movector") ? new Queue<T>(std::move(*q[c])) : new Queue<T>(*q[c]);
+         delete q[r]; q[r] = nq;
+         refs[r] = refs[c];
+         if (op == "movector") refs[c] = Ref();
+         return fin("ok", "ok");
+      }
       if (((op == "copy")||(op == "copyfrom")||(op == "move")||(op == "swapc"))&&(n == 3)&&(NUM(2, c, (uint64_t)NREGS)))
       {
          Queue<T> & S = *q[c];
          if (op == "copy") {Q = S; if (r != (int)c) refs[r] = refs[c]; return fin("ok", "ok");}
          if (op == "copyfrom") {const bool ok = Q.CopyFrom(S).IsOK(); if (r != (int)c) refs[r] = refs[c]; return fin(ok?"ok":"err", "ok");}
-         if (op == "move") {if (r == (int)c) return "bad-op"; Q = std::move(S); refs[r] = refs[c]; refs[c] = Ref(); return fin("ok", "ok");}
+         if (op == "move") {Q = std::move(S); if (r != (int)c) {refs[r] = refs[c]; refs[c] = Ref();} return fin("ok", "ok");}   // moving a Queue onto itself must leave it as it is
          Q.SwapContents(S); if (r != (int)c) std::swap(refs[r], refs[c]);
          return fin("ok", "ok");
       }
@@ -476,7 +537,7 @@ struct QEngine : public Engine
       if (w < 20) {emit(out, (r.chance(1,2) ? "remheadm " : "remtailm ") + R + " " + u64s(r.chance(1,6) ? genIndex(r, cnt, false) : r.below(4))); return;}
       if (w < 24) {emit(out, "remat " + R + " " + u64s(genIndex(r, cnt, true))); return;}
       if (w < 26) {emit(out, "get " + R + " " + u64s(genIndex(r, cnt, false))); return;}
-      if (w < 29) {emit(out, "set " + R + " " + u64s(genIndex(r, cnt, true)) + " " + u64s(genVal(r, reg))); return;}
+      if (w < 29) {if ((cnt)&&(r.chance(1,5))) emit(out, "setat " + R + " " + u64s(genIndex(r, cnt, true)) + " " + u64s(r.below(cnt))); else emit(out, "set " + R + " " + u64s(genIndex(r, cnt, true)) + " " + u64s(genVal(r, reg))); return;}
       if (w < 35) {emit(out, "ins " + R + " " + u64s(genIndex(r, cnt, false)) + " " + u64s(genVal(r, reg))); return;}
       if (w < 36) {if (cnt) emit(out, "insat " + R + " " + u64s(genIndex(r, cnt, false)) + " " + u64s(r.below(cnt))); return;}
       if (w < 44)
@@ -487,10 +548,15 @@ struct QEngine : public Engine
          const uint64_t clipped = std::min<uint64_t>(num, (start < ocnt) ? (ocnt-start) : 0);
          const uint32_t kind = r.below(3);
          const uint64_t idx = genIndex(r, cnt, false);
-         // known finding D4 (kept out of the random stream, see corpus/C16/q-selfprepend.ops): prepending a queue to itself
-         // when no reallocation is needed reads already shifted items
-         const bool selfPrepend = (oth == reg)&&(clipped >= 2)&&(clipped <= cur->cap(reg)-cnt)&&((kind == 2)||((kind == 0)&&(std::min<uint64_t>(idx, cnt) == 0)));
-         if (selfPrepend) return;
+         (void) clipped;   // the source may be the target itself, with or without spare slots (finding C16-D4 is in the stream)
+         if ((cnt)&&(r.chance(1,6)))
+         {
+            // the array overloads with a pointer INTO this Queue as the argument
+            const uint32_t k2 = r.below(3); const uint64_t j = r.below(cnt), nn = r.range(1, 4);
+            if (k2 == 0) emit(out, "insap " + R + " " + u64s(idx) + " " + u64s(j) + " " + u64s(nn));
+            else emit(out, std::string((k2 == 1) ? "addtailap " : "addheadap ") + R + " " + u64s(j) + " " + u64s(nn));
+            return;
+         }
          if (kind == 0) emit(out, "insq " + R + " " + u64s(idx) + " " + S + " " + u64s(start) + " " + u64s(num));
          else emit(out, std::string((kind == 1) ? "addtailq " : "addheadq ") + R + " " + S + " " + u64s(start) + " " + u64s(num));
          return;
@@ -519,18 +585,13 @@ struct QEngine : public Engine
       if (w < 76)
       {
          const bool sOther = (oth != reg);
-         const uint32_t kind = r.below(4);
-         // known finding D3 (kept out of the random stream, see corpus/C16/q-swapstale.ops): for a copy-only owning item type
-         // SwapContentsAux leaves copies of the inline items behind
-         if (ty == 2)
-         {
-            const bool rs = cur->isSmall(reg), os = cur->isSmall(oth);
-            if ((kind == 3)&&(sOther)&&(((rs)&&(!os)&&(cnt > 0))||((os)&&(!rs)&&(ocnt > 0)))) return;
-            if ((kind == 2)&&(sOther)&&(rs)&&(!os)&&(cnt > 0)) return;
-         }
+         const uint32_t kind = r.below(7);
+         // every combination of inline / heap / never-allocated Queues, for every item type (finding C16-D3 is in the stream)
          if (kind == 0) emit(out, "copy " + R + " " + S);
          else if (kind == 1) emit(out, "copyfrom " + R + " " + S);
-         else if (kind == 2) {if (sOther) emit(out, "move " + R + " " + S);}
+         else if (kind == 2) emit(out, "move " + R + " " + S);        // also onto itself
+         else if (kind == 3) {if (sOther) emit(out, "movector " + R + " " + S);}
+         else if (kind == 4) {if (sOther) emit(out, "copyctor " + R + " " + S);}
          else emit(out, "swapc " + R + " " + S);
          return;
       }
@@ -542,10 +603,159 @@ struct QEngine : public Engine
       if (w < 89) {emit(out, "sort " + R + " 0 4294967295 0"); emit(out, "inssorted " + R + " " + u64s(genVal(r, reg))); return;}
       if (w < 91) {emit(out, "remall " + R + " " + u64s(genVal(r, reg))); return;}
       if (w < 92) {if (cnt) emit(out, "remallat " + R + " " + u64s(r.below(cnt))); return;}
-      if (w < 94) {emit(out, std::string(r.chance(1,2) ? "remfirst " : "remlast ") + R + " " + u64s(genVal(r, reg))); return;}
+      if (w < 94)
+      {
+         if ((cnt)&&(r.chance(1,3))) {static const char * k3[] = {"remfirstat ", "remlastat ", "inssortedat "}; const uint32_t k = r.below(3); if (k == 2) emit(out, "sort " + R + " 0 4294967295 0"); emit(out, std::string(k3[k]) + R + " " + u64s(r.below(cur->count(reg) ? cur->count(reg) : 1))); return;}
+         emit(out, std::string(r.chance(1,2) ? "remfirst " : "remlast ") + R + " " + u64s(genVal(r, reg))); return;
+      }
       if (w < 96) {emit(out, std::string(r.chance(1,2) ? "remdup " : "remsdup ") + R); return;}
       if (w < 99) {static const char * k[] = {"starts ", "ends ", "eq ", "cmp "}; emit(out, std::string(k[r.below(4)]) + R + " " + S); return;}
       emit(out, std::string(r.chance(1,2) ? "startsi " : "endsi ") + R + " " + u64s(genVal(r, reg)));
+   }
+
+   // ---- boundary-directed scenarios (each builds the state it needs with ordinary ops, so replay and shrinking work as usual)
+   void fillInline(Rng & r, FILE * out, const std::string & R, int reg, uint32_t k)
+   {
+      emit(out, "clear " + R + " 1");
+      for (uint32_t i=0; i<k; i++) emit(out, "addtail " + R + " " + u64s(genVal(r, reg) | 1));   // non-default values
+   }
+   void rotate(Rng & r, FILE * out, const std::string & R, int reg, uint32_t steps)
+   {
+      for (uint32_t i=0; (i<steps)&&(cur->count(reg) > 0); i++) {emit(out, "remhead " + R); emit(out, "addtail " + R + " " + u64s(genVal(r, reg) | 1));}
+   }
+   // a wrapped window; then a multi-item removal that lands the head exactly on the physical end of the array
+   // (head + m == slots), resp. the tail exactly below slot 0; then one single-item op or Normalize()
+   void scWrapEnd(Rng & r, FILE * out)
+   {
+      const int reg = (int)r.below(NREGS); const std::string R = u64s((uint64_t)reg);
+      emit(out, "clear " + R + " 1");
+      if (r.chance(2,3)) {static const uint32_t caps[] = {4, 5, 6, 8, 9, 16}; emit(out, "ensure " + R + " " + u64s(caps[r.below(6)]) + " 0 0 0");}
+      else emit(out, "addtail " + R + " " + u64s(genVal(r, reg)));   // inline buffer
+      uint32_t guard = 0;
+      while ((cur->count(reg)+1 < cur->cap(reg))&&(guard++ < 40)) emit(out, "addtail " + R + " " + u64s(genVal(r, reg)));
+      const uint32_t cap = cur->cap(reg);
+      if ((cap < 3)||(cur->count(reg)+1 != cap)) return;
+      const uint32_t want = 2 + r.below(cap-2);
+      guard = 0;
+      while ((cur->headOff(reg) != want)&&(guard++ < 80)) {emit(out, "remhead " + R); emit(out, "addtail " + R + " " + u64s(genVal(r, reg)));}
+      const uint32_t h = cur->headOff(reg);
+      if (r.chance(2,3)) emit(out, "remheadm " + R + " " + u64s(cap-h));   // head + m == slots
+      else emit(out, "remtailm " + R + " " + u64s(h-1));                   // tail - m == -1
+      switch(r.below(9))
+      {
+         case 0: emit(out, "addhead " + R + " " + u64s(genVal(r, reg))); break;
+         case 1: emit(out, "remhead " + R); break;
+         case 2: emit(out, "norm " + R); break;
+         case 3: emit(out, "addtail " + R + " " + u64s(genVal(r, reg))); break;
+         case 4: emit(out, "headget " + R + " " + u64s(genVal(r, reg))); break;
+         case 5: emit(out, "remtail " + R); break;
+         case 6: emit(out, "remat " + R + " 0"); break;
+         case 7: emit(out, "ins " + R + " 1 " + u64s(genVal(r, reg))); break;
+         default: emit(out, "get " + R + " 0"); break;
+      }
+      emit(out, "dump " + R);
+      emit(out, "norm " + R);
+      emit(out, "dump " + R);
+   }
+   // an inline (or heap) Queue with items is emptied in every possible way, then grows by size-setting / slot hand-out
+   void scEmptyThenGrow(Rng & r, FILE * out)
+   {
+      const int reg = (int)r.below(NREGS), oth = (reg+1)%NREGS; const std::string R = u64s((uint64_t)reg), E = u64s((uint64_t)oth);
+      const uint32_t sq = cur->sq();
+      fillInline(r, out, R, reg, r.chance(3,4) ? r.range(1, sq) : r.range(sq+1, sq+4));
+      if (r.chance(1,2)) rotate(r, out, R, reg, r.range(1, sq));
+      const uint32_t how = r.below(11);
+      if ((how >= 2)&&(how <= 6)) emit(out, "clear " + E + " " + u64s(r.below(2)));
+      switch(how)
+      {
+         case 0: emit(out, "clear " + R + " 1"); break;
+         case 1: emit(out, "clear " + R + " 0"); break;
+         case 2: emit(out, "copy " + R + " " + E); break;        // q = emptyQueue
+         case 3: emit(out, "copyfrom " + R + " " + E); break;
+         case 4: emit(out, "move " + R + " " + E); break;        // q = Queue<T>()
+         case 5: emit(out, "swapc " + R + " " + E); break;
+         case 6: emit(out, "movector " + E + " " + R); break;
+         case 7: emit(out, "remheadm " + R + " 4294967295"); break;
+         case 8: emit(out, "remtailm " + R + " 4294967295"); break;
+         case 9: emit(out, "ensure " + R + " 0 1 0 " + u64s(r.below(2))); break;
+         default: {uint32_t g = 0; while ((cur->count(reg))&&(g++ < 20)) emit(out, r.chance(1,2) ? ("remhead " + R) : ("remtail " + R));} break;
+      }
+      switch(r.below(6))
+      {
+         case 0: case 1: emit(out, "ensure " + R + " " + u64s(r.range(1, sq+1)) + " 1 0 0"); break;
+         case 2: emit(out, "tailget " + R); break;
+         case 3: emit(out, "headget " + R); break;
+         case 4: emit(out, "shrinkfit " + R + " 0"); emit(out, "ensure " + R + " " + u64s(sq) + " 1 0 0"); break;
+         default: emit(out, "addtaild " + R); break;
+      }
+      emit(out, "dump " + R);   // owning types: the handed-out item must be a default item; trivial types: unspecified (model prints ?)
+      {const int ua = unspecAt(cur->ref(reg).d); if (ua >= 0) emit(out, "set " + R + " " + u64s((uint64_t)ua) + " " + u64s(genVal(r, reg)));}
+      emit(out, "dump " + R);
+      emit(out, "dump " + E);
+   }
+   // transfer (move / move construction / swap / copy) between every combination of inline-with-head-offset, heap and never-allocated Queues,
+   // then the shrink + size-setting growth that would show an item left behind
+   void scTransfer(Rng & r, FILE * out)
+   {
+      const int reg = (int)r.below(NREGS), oth = (reg+1)%NREGS; const std::string R = u64s((uint64_t)reg), S = u64s((uint64_t)oth);
+      const uint32_t sq = cur->sq();
+      for (int side=0; side<2; side++)
+      {
+         const int g = side ? oth : reg; const std::string G = side ? S : R;
+         switch(r.below(4))
+         {
+            case 0: emit(out, "clear " + G + " 1"); break;                                                // never allocated / released
+            case 1: fillInline(r, out, G, g, r.range(1, sq)); break;                                      // inline, head 0
+            case 2: fillInline(r, out, G, g, sq); {const uint32_t h = r.range(1, sq); for (uint32_t i=0; i<h; i++) emit(out, "remhead " + G); const uint32_t a = r.below(h+1); for (uint32_t i=0; i<a; i++) emit(out, "addtail " + G + " " + u64s(genVal(r, g) | 1));} break;   // inline, head offset != 0, possibly wrapped
+            default: fillInline(r, out, G, g, r.range(sq+1, sq+5)); if (r.chance(1,2)) rotate(r, out, G, g, r.range(1, 3)); break;   // heap
+         }
+      }
+      static const char * how[] = {"move ", "movector ", "swapc ", "copy ", "copyctor ", "copyfrom "};
+      emit(out, std::string(how[r.below(6)]) + R + " " + S);
+      emit(out, "dump " + R); emit(out, "dump " + S);
+      for (int side=0; side<2; side++)
+      {
+         const int g = side ? oth : reg; const std::string G = side ? S : R;
+         if ((cur->count(g) > 1)&&(r.chance(1,2))) emit(out, "remtailm " + G + " " + u64s(cur->count(g)-1));
+         if (r.chance(1,2)) emit(out, "shrinkfit " + G + " 0");
+         emit(out, "ensure " + G + " " + u64s(r.range(1, sq+1)) + " 1 0 0");
+         emit(out, "dump " + G);
+      }
+   }
+   // the Queue itself (or items inside it) as the argument, with and without spare slots, with and without a wrapped window
+   void scSelfAlias(Rng & r, FILE * out)
+   {
+      const int reg = (int)r.below(NREGS); const std::string R = u64s((uint64_t)reg);
+      const uint32_t k = r.range(2, 6);
+      fillInline(r, out, R, reg, k);
+      if (r.chance(2,3)) emit(out, "ensure " + R + " " + u64s(k + r.range(0, 2*k+2)) + " 0 0 0");   // spare slots: none .. plenty
+      if (r.chance(1,2)) rotate(r, out, R, reg, r.range(1, 4));
+      const uint32_t cnt = cur->count(reg); if (cnt == 0) return;
+      const uint64_t start = r.chance(1,2) ? 0 : r.below(cnt), num = r.chance(1,2) ? 4294967295ULL : r.range(1, cnt);
+      const uint64_t idx = r.chance(1,3) ? 0 : (r.chance(1,2) ? cnt : r.below(cnt+1));
+      switch(r.below(12))
+      {
+         case 0: case 1: emit(out, "addheadq " + R + " " + R + " " + u64s(start) + " " + u64s(num)); break;
+         case 2: emit(out, "addtailq " + R + " " + R + " " + u64s(start) + " " + u64s(num)); break;
+         case 3: case 4: emit(out, "insq " + R + " " + u64s(idx) + " " + R + " " + u64s(start) + " " + u64s(num)); break;
+         case 5: case 6: emit(out, "insap " + R + " " + u64s(idx) + " " + u64s(r.below(cnt)) + " " + u64s(r.range(1, 4))); break;
+         case 7: emit(out, "addheadap " + R + " " + u64s(r.below(cnt)) + " " + u64s(r.range(1, 4))); break;
+         case 8: emit(out, "addtailap " + R + " " + u64s(r.below(cnt)) + " " + u64s(r.range(1, 4))); break;
+         case 9: emit(out, "insat " + R + " " + u64s(idx) + " " + u64s(r.below(cnt))); break;
+         case 10: emit(out, (r.chance(1,2) ? "addheadat " : "addtailat ") + R + " " + u64s(r.below(cnt))); break;
+         default: {static const char * k4[] = {"copy ", "copyfrom ", "swapc ", "move "}; emit(out, std::string(k4[r.below(4)]) + R + " " + R);} break;
+      }
+      emit(out, "dump " + R);
+   }
+   void genScenario(Rng & r, FILE * out)
+   {
+      switch(r.below(4))
+      {
+         case 0: scWrapEnd(r, out); break;
+         case 1: scEmptyThenGrow(r, out); break;
+         case 2: scTransfer(r, out); break;
+         default: scSelfAlias(r, out); break;
+      }
    }
 
    virtual void gen(Rng & r, const Tier & tier, FILE * out)
@@ -559,7 +769,8 @@ struct QEngine : public Engine
          emit(out, "new " + u64s((uint64_t)t) + " " + u64s(bank(t)->sq()));
          const uint32_t nops = r.range(3, tier.thorough ? 160 : 90);
          const int mode = (int)r.below(5);
-         for (uint32_t i=0; i<nops; i++) genOp(r, out, mode);
+         const uint32_t scAt = r.chance(1,2) ? r.below(nops) : nops;   // half of the cases contain one boundary-directed scenario, in whatever state the case is in
+         for (uint32_t i=0; i<nops; i++) {if (i == scAt) genScenario(r, out); genOp(r, out, mode);}
          for (int reg=0; reg<NREGS; reg++) {emit(out, "dump " + u64s((uint64_t)reg)); emit(out, "norm " + u64s((uint64_t)reg)); emit(out, "dump " + u64s((uint64_t)reg));}
       }
    }
